@@ -2,13 +2,25 @@
 //
 // Targets
 //   span_program  a generated span program (StartSpan with attributes/links/options, then
-//                 SetAttribute/AddEvent(4 forms)/SetStatus/UpdateName/End incl. operations after
-//                 End and a second End) against a reference span model, through 1..3 processors
-//                 of mixed kinds (simple, batch), every caller buffer short-lived
-//   span_threads  the same span driven by 2..3 real threads (engine E-THR; order-insensitive
-//                 comparison where the API gives no order), End after or racing the writers
+//                 SetAttribute/AddEvent(4 virtual forms + the container templates)/SetStatus/
+//                 UpdateName/End [ABI v2: AddLink/AddLinks] incl. operations after End, a second End
+//                 and a span that is only dropped) against a reference span model, through 1..3
+//                 processors of mixed kinds (simple, batch, an own "probe" SpanProcessor), every
+//                 caller buffer short-lived
+//   span_threads  the same span driven by 2..3 real threads (engine E-THR; per-thread call order is
+//                 compared, the interleaving between threads is free), End after the writers joined
+//   span_end_race writers racing End (logical stamps)
+//
+// Built twice: ABI v1 (what /repo/_build uses) and ABI v2 (adds Span::AddLink / Span::AddLinks and
+// instrumentation scope attributes to the generated programs).
+//
+// What every processor is compared on: the snapshot taken at the moment the span was delivered
+// (inside Export / OnEnd) AND a second reading of the very same recordable after the rest of the
+// program (operations after End, second End, dropping the span) has run.
+#include <algorithm>
 #include <atomic>
 #include <chrono>
+#include <limits>
 #include <mutex>
 #include <thread>
 
@@ -17,6 +29,8 @@
 #include "opentelemetry/sdk/trace/batch_span_processor_options.h"
 #include "opentelemetry/sdk/trace/exporter.h"
 #include "opentelemetry/sdk/trace/processor.h"
+#include "opentelemetry/sdk/trace/sampler.h"
+#include "opentelemetry/sdk/trace/samplers/always_on.h"
 #include "opentelemetry/sdk/trace/simple_processor.h"
 #include "opentelemetry/sdk/trace/span_data.h"
 #include "opentelemetry/sdk/trace/tracer_provider.h"
@@ -28,12 +42,19 @@
 
 const char *vh_property_id = "C04";
 
+#if OPENTELEMETRY_ABI_VERSION_NO >= 2
+#  define C04_ABI2 1
+#else
+#  define C04_ABI2 0
+#endif
+
 namespace
 {
 namespace otel   = opentelemetry;
 namespace sdkt   = opentelemetry::sdk::trace;
 namespace tr     = opentelemetry::trace;
 using OwnedMap   = std::unordered_map<std::string, otel::sdk::common::OwnedAttributeValue>;
+using ApiKV      = std::pair<otel::nostd::string_view, otel::common::AttributeValue>;
 
 struct CapturedEvent
 {
@@ -57,13 +78,50 @@ struct Captured
   std::vector<CapturedLink> links;
   const void *resource;
   OwnedMap resource_attrs;
+  OwnedMap scope_attrs;
 };
 
+Captured snapshot(const sdkt::SpanData &d)
+{
+  Captured c;
+  c.name           = std::string(d.GetName().data(), d.GetName().size());
+  c.status_desc    = std::string(d.GetDescription().data(), d.GetDescription().size());
+  c.status         = static_cast<int>(d.GetStatus());
+  c.kind           = static_cast<int>(d.GetSpanKind());
+  c.start_ns       = d.GetStartTime().time_since_epoch().count();
+  c.duration_ns    = d.GetDuration().count();
+  c.flags          = d.GetFlags().flags();
+  c.attrs          = d.GetAttributes();
+  c.trace_id       = sg::hex(d.GetTraceId());
+  c.span_id        = sg::hex(d.GetSpanId());
+  c.parent_id      = sg::hex(d.GetParentSpanId());
+  auto &scope      = d.GetInstrumentationScope();
+  c.scope_name     = scope.GetName();
+  c.scope_version  = scope.GetVersion();
+  c.scope_schema   = scope.GetSchemaURL();
+  c.scope_attrs    = scope.GetAttributes();
+  c.resource       = &d.GetResource();
+  c.resource_attrs = d.GetResource().GetAttributes();
+  for (auto &e : d.GetEvents())
+    c.events.push_back(CapturedEvent{e.GetName(), e.GetTimestamp().time_since_epoch().count(), e.GetAttributes()});
+  for (auto &l : d.GetLinks())
+    c.links.push_back(CapturedLink{sg::show_ctx(l.GetSpanContext()), l.GetAttributes()});
+  return c;
+}
+
+// what one configured processor received
 struct Sink
 {
   std::mutex mu;
-  std::vector<Captured> spans;
+  char kind = 's';               // 's' simple, 'b' batch (both: stock processor + CaptureExporter), 'p' probe processor
+  std::vector<Captured> spans;   // snapshot taken at delivery (inside Export / inside the probe's OnEnd)
+  std::vector<std::unique_ptr<sdkt::Recordable>> held;  // the delivered recordables, read again later
   int export_calls = 0;
+  // probe processors only
+  int on_start = 0, on_end = 0;
+  const void *start_ptr = nullptr, *end_ptr = nullptr;
+  bool start_parent_valid = false;
+  std::string start_parent_span;
 };
 
 class CaptureExporter final : public sdkt::SpanExporter
@@ -81,30 +139,10 @@ public:
     sink_->export_calls++;
     for (auto &r : batch)
     {
-      auto &d = static_cast<sdkt::SpanData &>(*r);
-      Captured c;
-      c.name          = std::string(d.GetName().data(), d.GetName().size());
-      c.status_desc   = std::string(d.GetDescription().data(), d.GetDescription().size());
-      c.status        = static_cast<int>(d.GetStatus());
-      c.kind          = static_cast<int>(d.GetSpanKind());
-      c.start_ns      = d.GetStartTime().time_since_epoch().count();
-      c.duration_ns   = d.GetDuration().count();
-      c.flags         = d.GetFlags().flags();
-      c.attrs         = d.GetAttributes();
-      c.trace_id      = sg::hex(d.GetTraceId());
-      c.span_id       = sg::hex(d.GetSpanId());
-      c.parent_id     = sg::hex(d.GetParentSpanId());
-      auto &scope     = d.GetInstrumentationScope();
-      c.scope_name    = scope.GetName();
-      c.scope_version = scope.GetVersion();
-      c.scope_schema  = scope.GetSchemaURL();
-      c.resource      = &d.GetResource();
-      c.resource_attrs = d.GetResource().GetAttributes();
-      for (auto &e : d.GetEvents())
-        c.events.push_back(CapturedEvent{e.GetName(), e.GetTimestamp().time_since_epoch().count(), e.GetAttributes()});
-      for (auto &l : d.GetLinks())
-        c.links.push_back(CapturedLink{sg::show_ctx(l.GetSpanContext()), l.GetAttributes()});
-      sink_->spans.push_back(std::move(c));
+      sink_->spans.push_back(snapshot(static_cast<sdkt::SpanData &>(*r)));
+      // keep the recordable (as the in-memory exporter of the repository does): it is read a second
+      // time once the program has finished, so a write through a stale pointer after End is seen
+      sink_->held.push_back(std::move(r));
     }
     return otel::sdk::common::ExportResult::kSuccess;
   }
@@ -113,6 +151,73 @@ public:
 
 private:
   std::shared_ptr<Sink> sink_;
+};
+
+// an own SpanProcessor: observes the notifications themselves (OnStart / OnEnd fan-out of
+// MultiSpanProcessor) instead of what a stock processor makes of them
+class ProbeProcessor final : public sdkt::SpanProcessor
+{
+public:
+  explicit ProbeProcessor(std::shared_ptr<Sink> s) : sink_(std::move(s)) {}
+  std::unique_ptr<sdkt::Recordable> MakeRecordable() noexcept override
+  {
+    return std::unique_ptr<sdkt::Recordable>(new sdkt::SpanData());
+  }
+  void OnStart(sdkt::Recordable &span, const tr::SpanContext &parent_context) noexcept override
+  {
+    std::lock_guard<std::mutex> g(sink_->mu);
+    sink_->on_start++;
+    sink_->start_ptr          = &span;
+    sink_->start_parent_valid = parent_context.IsValid();
+    sink_->start_parent_span  = sg::hex(parent_context.span_id());
+  }
+  void OnEnd(std::unique_ptr<sdkt::Recordable> &&span) noexcept override
+  {
+    std::lock_guard<std::mutex> g(sink_->mu);
+    sink_->on_end++;
+    sink_->end_ptr = span.get();
+    sink_->spans.push_back(snapshot(static_cast<sdkt::SpanData &>(*span)));
+    sink_->held.push_back(std::move(span));
+  }
+  bool ForceFlush(std::chrono::microseconds) noexcept override { return true; }
+  bool Shutdown(std::chrono::microseconds) noexcept override { return true; }
+
+private:
+  std::shared_ptr<Sink> sink_;
+};
+
+// a configured sampler: decides RECORD_AND_SAMPLE or RECORD_ONLY (both are recording spans) and may
+// hand out attributes (keys "sampler.*", disjoint from every generated application key)
+class GenSampler final : public sdkt::Sampler
+{
+public:
+  GenSampler(bool record_only, bool with_attrs, int64_t ival, std::string sval)
+      : record_only_(record_only), with_attrs_(with_attrs), ival_(ival), sval_(std::move(sval))
+  {}
+  sdkt::SamplingResult ShouldSample(const tr::SpanContext &parent_context,
+                                    tr::TraceId,
+                                    otel::nostd::string_view,
+                                    tr::SpanKind,
+                                    const otel::common::KeyValueIterable &,
+                                    const tr::SpanContextKeyValueIterable &) noexcept override
+  {
+    std::unique_ptr<const std::map<std::string, otel::common::AttributeValue>> attrs;
+    if (with_attrs_)
+    {
+      auto *mp            = new std::map<std::string, otel::common::AttributeValue>();
+      (*mp)["sampler.i"] = otel::common::AttributeValue(ival_);
+      (*mp)["sampler.s"] = otel::common::AttributeValue(otel::nostd::string_view(sval_.data(), sval_.size()));
+      attrs.reset(mp);
+    }
+    return {record_only_ ? sdkt::Decision::RECORD_ONLY : sdkt::Decision::RECORD_AND_SAMPLE, std::move(attrs),
+            parent_context.IsValid() ? parent_context.trace_state() : tr::TraceState::GetDefault()};
+  }
+  otel::nostd::string_view GetDescription() const noexcept override { return "GenSampler"; }
+
+private:
+  bool record_only_, with_attrs_;
+  int64_t ival_;
+  std::string sval_;
 };
 
 // a SpanContextKeyValueIterable over generated links with arena storage
@@ -143,18 +248,69 @@ private:
   sg::Arena &a_;
 };
 
+// the container spelling of an attribute list (for the templated convenience overloads of the API)
+std::vector<ApiKV> to_container(const sg::KVList &l, sg::Arena &a, bool cstr_form)
+{
+  std::vector<ApiKV> v;
+  for (auto &kv : l)
+    v.emplace_back(a.view(kv.first), sg::to_api(kv.second, a, cstr_form));
+  return v;
+}
+
+// ------------------------------------------------------------------------------------------------
+// clocks.  The SDK stamps "now" itself when the application gives no time; such a value can only be
+// bracketed by the clock readings around the API call.
 int64_t now_sys_ns()
 {
   return std::chrono::duration_cast<std::chrono::nanoseconds>(
              std::chrono::system_clock::now().time_since_epoch())
       .count();
 }
+int64_t now_steady_ns()
+{
+  return std::chrono::duration_cast<std::chrono::nanoseconds>(
+             std::chrono::steady_clock::now().time_since_epoch())
+      .count();
+}
+// System-clock window of one API call.  The wall clock may be stepped backwards (NTP) while the call
+// runs; the steady clock cannot.  The steady readings are taken OUTSIDE the system readings, so
+// (steady elapsed) - (system elapsed) >= the size of any backward step inside the window, and the
+// window is widened by exactly that amount (0 on a quiet clock).
+struct Win
+{
+  int64_t lo = 0, hi = 0, slack = 0;
+  int64_t st_lo = 0, st_hi = 0;  // steady readings before / after the call
+  bool has(int64_t v) const { return v >= lo - slack && v <= hi + slack; }
+};
+struct WinTimer
+{
+  Win w;
+  void begin()
+  {
+    w.st_lo = now_steady_ns();
+    w.lo    = now_sys_ns();
+  }
+  Win end()
+  {
+    w.hi          = now_sys_ns();
+    w.st_hi       = now_steady_ns();
+    int64_t drift = (w.st_hi - w.st_lo) - (w.hi - w.lo);
+    w.slack       = drift > 0 ? drift : 0;
+    return w;
+  }
+};
+
+otel::common::SystemTimestamp sys_ts(int64_t ns)
+{
+  return otel::common::SystemTimestamp(std::chrono::nanoseconds(ns));
+}
 
 struct MEvent
 {
   std::string name;
   bool ts_given;
-  int64_t ts_ns, win_lo, win_hi;
+  int64_t ts_ns;
+  Win win;
   sg::KVMap attrs;
 };
 
@@ -163,26 +319,167 @@ struct Model
   std::string name, status_desc;
   int status = 0, kind = 0;
   bool start_given = false;
-  int64_t start_ns = 0, start_lo = 0, start_hi = 0;
+  int64_t start_ns = 0;
+  Win start_win;  // StartSpan call: system window and steady readings
   bool steady_start_given = false, steady_end_given = false;
   int64_t steady_start = 0, steady_end = 0;
-  int64_t wall_lo = 0;  // steady ns before StartSpan
+  int64_t e_lo = 0, e_hi = 0;  // steady readings around the call that ended the span
   sg::KVMap attrs;
   std::vector<MEvent> events;
   std::vector<std::pair<std::string, sg::KVMap>> links;
   std::string parent_id;
+  bool explicit_parent = false;
   bool ended = false;
 };
 
 struct Setup
 {
   std::vector<std::shared_ptr<Sink>> sinks;
-  std::vector<bool> is_batch;
   std::shared_ptr<sdkt::TracerProvider> provider;
   otel::nostd::shared_ptr<tr::Tracer> tracer;
   std::string scope_name, scope_version, scope_schema;
+  sg::KVMap scope_attrs;
   sg::KVMap resource_model;
+  sg::KVMap sampler_attrs;  // what the configured sampler adds to every span
+  bool mixed_kinds = false;
 };
+
+// ------------------------------------------------------------------------------------------------
+// generator additions on top of sdkgen.h (kept here: sdkgen.h is shared with other properties)
+
+// lengths around the small-string boundaries of the common std::string implementations
+std::string boundary_string(vh::Reader &rd)
+{
+  static const unsigned lens[] = {15, 16, 14, 17, 22, 23, 24, 31, 32, 9};
+  unsigned n    = lens[rd.below(sizeof lens / sizeof lens[0])];
+  unsigned seed = rd.below(26);
+  std::string s;
+  for (unsigned i = 0; i < n; ++i)
+    s.push_back(static_cast<char>('a' + (i + seed) % 26));
+  return s;
+}
+
+std::string gen_text(vh::Reader &rd, size_t max_len)
+{
+  std::string s = sg::gen_bytes(rd, max_len);
+  if (rd.chance(10))
+    s = boundary_string(rd);
+  return s;
+}
+
+struct GenStats
+{
+  bool sso = false, large_array = false;
+};
+
+template <class T>
+void enlarge(std::vector<T> &v, size_t n)
+{
+  size_t old = v.size();
+  v.resize(n);
+  for (size_t i = old; i < n; ++i)
+    v[i] = static_cast<T>(i % 251);
+}
+
+// late alternatives for a generated value: a string of boundary length, a large array
+void tweak_value(vh::Reader &rd, sg::MValue &v, GenStats &gs)
+{
+  switch (rd.weighted({17, 2, 1}))
+  {
+    case 0:
+      return;
+    case 1:
+      if (v.index() == 6)
+      {
+        v      = sg::MValue(boundary_string(rd));
+        gs.sso = true;
+      }
+      else if (v.index() == 13 && !std::get<13>(v).empty())
+      {
+        auto &a = std::get<13>(v);
+        a[rd.below(static_cast<uint32_t>(a.size() < 5 ? a.size() : 5))] = boundary_string(rd);
+        gs.sso  = true;
+      }
+      return;
+    default:
+    {
+      if (v.index() < 7)
+        return;
+      size_t n       = 200 + rd.below(4000);
+      gs.large_array = true;
+      switch (v.index())
+      {
+        case 7:
+        {
+          auto &a    = std::get<7>(v);
+          size_t old = a.size();
+          a.resize(n);
+          for (size_t i = old; i < n; ++i)
+            a[i] = (i % 3 == 0);
+          break;
+        }
+        case 8:
+          enlarge(std::get<8>(v), n);
+          break;
+        case 9:
+          enlarge(std::get<9>(v), n);
+          break;
+        case 10:
+          enlarge(std::get<10>(v), n);
+          break;
+        case 11:
+          enlarge(std::get<11>(v), n);
+          break;
+        case 12:
+          enlarge(std::get<12>(v), n);
+          break;
+        case 13:
+        {
+          auto &a    = std::get<13>(v);
+          size_t old = a.size();
+          n          = 200 + n % 600;
+          a.resize(n);
+          for (size_t i = old; i < n; ++i)
+            a[i] = "s" + std::to_string(i);
+          break;
+        }
+        default:
+          enlarge(std::get<14>(v), n);
+          break;
+      }
+      return;
+    }
+  }
+}
+
+void tweak_kvlist(vh::Reader &rd, sg::KVList &l, GenStats &gs)
+{
+  if (!l.empty() && rd.chance(10))
+    tweak_value(rd, l[rd.below(static_cast<uint32_t>(l.size()))].second, gs);
+}
+
+// an explicit timestamp: ordinary values plus the boundaries of the representation.  0 ns is a valid,
+// explicitly given time for an event (there are separate overloads for "no timestamp").
+int64_t gen_event_ts(vh::Reader &rd, int64_t ordinary, bool *boundary)
+{
+  *boundary = true;
+  switch (rd.weighted({12, 3, 1, 1, 1, 1}))
+  {
+    case 1:
+      return 0;
+    case 2:
+      return 1;
+    case 3:
+      return -1;
+    case 4:
+      return static_cast<int64_t>(rd.u32());  // the first seconds after the epoch (0 included)
+    case 5:
+      return rd.coin() ? std::numeric_limits<int64_t>::max() : std::numeric_limits<int64_t>::min();
+    default:
+      *boundary = false;
+      return ordinary;
+  }
+}
 
 Setup make_setup(vh::Case &c)
 {
@@ -191,46 +488,131 @@ Setup make_setup(vh::Case &c)
   unsigned np = 1 + static_cast<unsigned>(rd.weighted({5, 3, 2}));
   std::vector<std::unique_ptr<sdkt::SpanProcessor>> procs;
   std::string desc = "processors=[";
+  std::string kinds;
   for (unsigned i = 0; i < np; ++i)
   {
     auto sink = std::make_shared<Sink>();
     s.sinks.push_back(sink);
-    bool batch = rd.chance(40);
-    s.is_batch.push_back(batch);
-    std::unique_ptr<sdkt::SpanExporter> ex(new CaptureExporter(sink));
-    if (batch)
+    size_t kind = rd.weighted({45, 35, 20});
+    if (kind == 1)
     {
+      sink->kind = 'b';
+      std::unique_ptr<sdkt::SpanExporter> ex(new CaptureExporter(sink));
       sdkt::BatchSpanProcessorOptions o;
       o.max_queue_size        = 64;
       o.max_export_batch_size = 16;
       o.schedule_delay_millis = std::chrono::milliseconds(rd.coin() ? 1 : 5000);
       procs.emplace_back(new sdkt::BatchSpanProcessor(std::move(ex), o));
+      desc += "batch ";
+    }
+    else if (kind == 0)
+    {
+      sink->kind = 's';
+      std::unique_ptr<sdkt::SpanExporter> ex(new CaptureExporter(sink));
+      procs.emplace_back(new sdkt::SimpleSpanProcessor(std::move(ex)));
+      desc += "simple ";
     }
     else
-      procs.emplace_back(new sdkt::SimpleSpanProcessor(std::move(ex)));
-    desc += batch ? "batch " : "simple ";
+    {
+      sink->kind = 'p';
+      procs.emplace_back(new ProbeProcessor(sink));
+      desc += "probe ";
+    }
+    if (kinds.find(sink->kind) == std::string::npos)
+      kinds.push_back(sink->kind);
   }
+  s.mixed_kinds   = kinds.size() >= 2;
   int64_t res_val = static_cast<int64_t>(rd.below(100));
   auto resource   = otel::sdk::resource::Resource::Create(
       {{"service.name", "vh-c04"}, {"res.key", res_val}});
-  s.provider = std::make_shared<sdkt::TracerProvider>(std::move(procs), resource);
   s.scope_name    = "scope" + std::to_string(rd.below(3));
   s.scope_version = rd.coin() ? "" : "1." + std::to_string(rd.below(3));
   s.scope_schema  = rd.coin() ? "" : "https://schema/" + std::to_string(rd.below(3));
+  // --- later additions (drawn after everything above) -------------------------------------------
+  // the last processor is attached with TracerProvider::AddProcessor after GetTracer (before StartSpan)
+  bool late_add = rd.chance(25);
+  // sampler: 0 AlwaysOn, 1 RECORD_AND_SAMPLE + attributes, 2 RECORD_ONLY (+ attributes by coin)
+  size_t smode = rd.weighted({14, 3, 3});
+  std::unique_ptr<sdkt::Sampler> sampler;
+  if (smode == 0)
+    sampler.reset(new sdkt::AlwaysOnSampler());
+  else
+  {
+    bool record_only = smode == 2;
+    bool with_attrs  = smode == 1 || rd.coin();
+    int64_t ival     = static_cast<int64_t>(rd.below(50));
+    std::string sval = gen_text(rd, 40);
+    sampler.reset(new GenSampler(record_only, with_attrs, ival, sval));
+    if (with_attrs)
+    {
+      s.sampler_attrs["sampler.i"] = sg::MValue(ival);
+      s.sampler_attrs["sampler.s"] = sg::MValue(sval);
+      c.tag("sampler-attributes");
+    }
+    if (record_only)
+      c.tag("record-only");
+    desc += record_only ? "| sampler=RECORD_ONLY " : "| sampler=RECORD_AND_SAMPLE ";
+    if (with_attrs)
+      desc += "+attrs(" + std::to_string(ival) + ",'" + vh::show(sval.substr(0, 12)) + "') ";
+  }
+#if C04_ABI2
+  sg::KVList scope_attr_list;
+  if (rd.chance(30))
+  {
+    scope_attr_list = sg::gen_kvlist(rd, 3);
+    sg::apply_last_wins(s.scope_attrs, scope_attr_list);
+    if (!scope_attr_list.empty())
+      c.tag("scope-attributes");
+  }
+#endif
+  std::unique_ptr<sdkt::SpanProcessor> last;
+  if (late_add)
+  {
+    last = std::move(procs.back());
+    procs.pop_back();
+    desc += "| last one via AddProcessor ";
+    c.tag("late-AddProcessor");
+  }
+  s.provider = std::make_shared<sdkt::TracerProvider>(std::move(procs), resource, std::move(sampler));
   {
     sg::Arena a;
-    s.tracer = s.provider->GetTracer(a.view(s.scope_name), a.view(s.scope_version), a.view(s.scope_schema));
+#if C04_ABI2
+    if (!scope_attr_list.empty())
+    {
+      sg::ArenaKV akv(scope_attr_list, a);
+      s.tracer = s.provider->GetTracer(a.view(s.scope_name), a.view(s.scope_version), a.view(s.scope_schema), &akv);
+      desc += "| scope attrs " + sg::show_kvlist(scope_attr_list) + " ";
+    }
+    else
+#endif
+      s.tracer = s.provider->GetTracer(a.view(s.scope_name), a.view(s.scope_version), a.view(s.scope_schema));
   }
+  if (late_add)
+    s.provider->AddProcessor(std::move(last));
   c.note(desc + "] scope=" + s.scope_name + "/" + s.scope_version + "/" + s.scope_schema + " res.key=" +
          std::to_string(res_val) + "\n");
   if (np >= 2)
     c.tag("2+processors");
+  if (s.mixed_kinds)
+    c.tag("mixed-processor-kinds");
+  if (kinds.find('p') != std::string::npos)
+    c.tag("probe-processor");
+  c.tag(C04_ABI2 ? "build:abi2" : "build:abi1");
   s.resource_model["res.key"] = sg::MValue(res_val);
   return s;
 }
 
-void compare(vh::Case &c, const Model &m, const Captured &g, const Setup &s, const std::string &ctx_trace,
-             const std::string &ctx_span, const char *who, bool events_unordered)
+struct Started
+{
+  otel::nostd::shared_ptr<tr::Span> span;
+  std::string trace_id, span_id;
+  unsigned flags = 0;
+};
+
+// events of several threads: only the order inside one thread is defined.  `groups` = the name
+// prefixes ("t0.", "t1.", ...) that partition the events by calling thread; nullptr = one sequence.
+void compare(vh::Case &c, const Model &m, const Captured &g, const Setup &s, const Started &st, const char *who,
+             const std::vector<std::string> *groups)
 {
   std::string diff;
   VH_CHECK(c, g.name == m.name, who << ": name '" << vh::show(g.name) << "' expected '" << vh::show(m.name) << "'");
@@ -242,22 +624,46 @@ void compare(vh::Case &c, const Model &m, const Captured &g, const Setup &s, con
   if (m.start_given)
     VH_CHECK(c, g.start_ns == m.start_ns, who << ": start time " << g.start_ns << " expected " << m.start_ns);
   else
-    VH_CHECK(c, g.start_ns >= m.start_lo && g.start_ns <= m.start_hi,
-             who << ": start time " << g.start_ns << " outside the StartSpan call window [" << m.start_lo
-                 << "," << m.start_hi << "]");
-  if (m.steady_start_given && m.steady_end_given)
-    VH_CHECK(c, g.duration_ns == m.steady_end - m.steady_start,
-             who << ": duration " << g.duration_ns << " expected " << (m.steady_end - m.steady_start));
-  else if (!m.steady_start_given && !m.steady_end_given)
-    VH_CHECK(c, g.duration_ns >= 0 && g.duration_ns < 600000000000ll,
-             who << ": duration " << g.duration_ns << " is not a plausible elapsed time");
-  VH_CHECK(c, g.trace_id == ctx_trace && g.span_id == ctx_span,
+    VH_CHECK(c, m.start_win.has(g.start_ns),
+             who << ": start time " << g.start_ns << " outside the StartSpan call window [" << m.start_win.lo
+                 << "," << m.start_win.hi << "] (slack " << m.start_win.slack << ")");
+  {
+    // duration = (given end | steady now inside the ending call) - (given start | steady now inside StartSpan)
+    int64_t d_lo, d_hi;
+    if (m.steady_start_given && m.steady_end_given)
+      d_lo = d_hi = m.steady_end - m.steady_start;
+    else if (m.steady_start_given)
+    {
+      d_lo = m.e_lo - m.steady_start;
+      d_hi = m.e_hi - m.steady_start;
+    }
+    else if (m.steady_end_given)
+    {
+      d_lo = m.steady_end - m.start_win.st_hi;
+      d_hi = m.steady_end - m.start_win.st_lo;
+    }
+    else
+    {
+      d_lo = m.e_lo - m.start_win.st_hi;
+      d_hi = m.e_hi - m.start_win.st_lo;
+    }
+    VH_CHECK(c, g.duration_ns >= d_lo && g.duration_ns <= d_hi,
+             who << ": duration " << g.duration_ns << " expected "
+                 << (d_lo == d_hi ? std::string("exactly ") + std::to_string(d_lo)
+                                  : "within [" + std::to_string(d_lo) + "," + std::to_string(d_hi) + "]")
+                 << " (steady start " << (m.steady_start_given ? "given" : "taken by the SDK") << ", end "
+                 << (m.steady_end_given ? "given" : "taken by the SDK") << ")");
+  }
+  VH_CHECK(c, g.trace_id == st.trace_id && g.span_id == st.span_id,
            who << ": identity " << g.trace_id << "/" << g.span_id << " differs from span->GetContext() "
-               << ctx_trace << "/" << ctx_span);
+               << st.trace_id << "/" << st.span_id);
+  VH_CHECK(c, g.flags == st.flags, who << ": trace flags " << unsigned(g.flags) << " differ from span->GetContext() "
+                                       << st.flags);
   VH_CHECK(c, g.parent_id == m.parent_id, who << ": parent span id " << g.parent_id << " expected " << m.parent_id);
   VH_CHECK(c, g.scope_name == s.scope_name && g.scope_version == s.scope_version &&
                   g.scope_schema == s.scope_schema,
            who << ": instrumentation scope " << g.scope_name << "/" << g.scope_version << "/" << g.scope_schema);
+  VH_CHECK(c, sg::maps_equal(s.scope_attrs, g.scope_attrs, &diff), who << ": instrumentation scope attributes: " << diff);
   {
     auto it = g.resource_attrs.find("res.key");
     VH_CHECK(c, it != g.resource_attrs.end() && sg::equals(s.resource_model.at("res.key"), it->second),
@@ -269,39 +675,54 @@ void compare(vh::Case &c, const Model &m, const Captured &g, const Setup &s, con
   // events
   VH_CHECK(c, g.events.size() == m.events.size(), who << ": " << g.events.size() << " events, expected "
                                                       << m.events.size());
-  std::vector<bool> used(g.events.size(), false);
-  for (size_t i = 0; i < m.events.size(); ++i)
-  {
-    const MEvent &me = m.events[i];
-    auto matches     = [&](const CapturedEvent &ge) {
+  auto check_seq = [&](const std::vector<const MEvent *> &exp, const std::vector<const CapturedEvent *> &got,
+                       const std::string &label) {
+    VH_CHECK(c, exp.size() == got.size(), who << ": " << got.size() << " events" << label << ", expected " << exp.size());
+    for (size_t i = 0; i < exp.size(); ++i)
+    {
       std::string d2;
-      if (ge.name != me.name || !sg::maps_equal(me.attrs, ge.attrs, &d2))
-        return false;
+      const MEvent &me        = *exp[i];
+      const CapturedEvent &ge = *got[i];
+      VH_CHECK(c, ge.name == me.name, who << ": event " << i << label << " name '" << vh::show(ge.name)
+                                          << "' expected '" << vh::show(me.name) << "'");
+      VH_CHECK(c, sg::maps_equal(me.attrs, ge.attrs, &d2), who << ": event " << i << label << " attributes: " << d2);
       if (me.ts_given)
-        return ge.ts_ns == me.ts_ns;
-      return ge.ts_ns >= me.win_lo && ge.ts_ns <= me.win_hi;
-    };
-    if (!events_unordered)
-    {
-      std::string d2;
-      const CapturedEvent &ge = g.events[i];
-      VH_CHECK(c, ge.name == me.name, who << ": event " << i << " name '" << vh::show(ge.name) << "' expected '"
-                                          << vh::show(me.name) << "'");
-      VH_CHECK(c, sg::maps_equal(me.attrs, ge.attrs, &d2), who << ": event " << i << " attributes: " << d2);
-      VH_CHECK(c, matches(ge), who << ": event " << i << " timestamp " << ge.ts_ns
-                                   << (me.ts_given ? " differs from the given one" : " outside the call window"));
+        VH_CHECK(c, ge.ts_ns == me.ts_ns, who << ": event " << i << label << " timestamp " << ge.ts_ns
+                                              << " differs from the given one " << me.ts_ns);
+      else
+        VH_CHECK(c, me.win.has(ge.ts_ns), who << ": event " << i << label << " timestamp " << ge.ts_ns
+                                              << " outside the call window [" << me.win.lo << "," << me.win.hi
+                                              << "] (slack " << me.win.slack << ")");
     }
-    else
+  };
+  if (!groups)
+  {
+    std::vector<const MEvent *> exp;
+    std::vector<const CapturedEvent *> got;
+    for (auto &e : m.events)
+      exp.push_back(&e);
+    for (auto &e : g.events)
+      got.push_back(&e);
+    check_seq(exp, got, "");
+  }
+  else
+  {
+    size_t claimed = 0;
+    for (auto &p : *groups)
     {
-      bool found = false;
-      for (size_t j = 0; j < g.events.size() && !found; ++j)
-        if (!used[j] && matches(g.events[j]))
-        {
-          used[j] = true;
-          found   = true;
-        }
-      VH_CHECK(c, found, who << ": event '" << vh::show(me.name) << "' (#" << i << ") not found in the exported span");
+      std::vector<const MEvent *> exp;
+      std::vector<const CapturedEvent *> got;
+      for (auto &e : m.events)
+        if (e.name.compare(0, p.size(), p) == 0)
+          exp.push_back(&e);
+      for (auto &e : g.events)
+        if (e.name.compare(0, p.size(), p) == 0)
+          got.push_back(&e);
+      claimed += got.size();
+      check_seq(exp, got, " of thread '" + p + "'");
     }
+    VH_CHECK(c, claimed == g.events.size(), who << ": " << (g.events.size() - claimed)
+                                                << " exported events belong to no thread of the program");
   }
   // links
   VH_CHECK(c, g.links.size() == m.links.size(), who << ": " << g.links.size() << " links, expected " << m.links.size());
@@ -314,28 +735,26 @@ void compare(vh::Case &c, const Model &m, const Captured &g, const Setup &s, con
   }
 }
 
-struct Started
+// one generated span operation applied to the span and (if before End) to the model
+struct OpStats
 {
-  otel::nostd::shared_ptr<tr::Span> span;
-  std::string trace_id, span_id;
+  bool dupkey = false, nonscalar = false, post_end = false, ts_boundary = false, ts_zero = false;
+  bool add_link = false, add_links = false, container_form = false;
+  GenStats gs;
 };
 
-Started start_span(vh::Case &c, Setup &s, Model &m)
+Started start_span(vh::Case &c, Setup &s, Model &m, OpStats &os)
 {
   vh::Reader &rd = c.rd;
   sg::Arena a;
   m.name = sg::gen_bytes(rd, 100);
   sg::KVList attrs = sg::gen_kvlist(rd);
-  sg::apply_last_wins(m.attrs, attrs);
   std::vector<MLink> links;
   unsigned nl = static_cast<unsigned>(rd.weighted({5, 3, 1, 1}));
   for (unsigned i = 0; i < nl; ++i)
   {
-    MLink l{sg::gen_span_context(rd, !rd.chance(15)), sg::gen_kvlist(rd, 3)};
-    sg::KVMap lm;
-    sg::apply_last_wins(lm, l.attrs);
-    m.links.emplace_back(sg::show_ctx(l.ctx), lm);
-    links.push_back(std::move(l));
+    bool valid = !rd.chance(15);
+    links.push_back(MLink{sg::gen_span_context(rd, valid), sg::gen_kvlist(rd, 3)});
   }
   tr::StartSpanOptions opt;
   m.kind   = static_cast<int>(rd.below(5));
@@ -344,8 +763,6 @@ Started start_span(vh::Case &c, Setup &s, Model &m)
   {
     m.start_given = true;
     m.start_ns    = 1600000000000000000ll + static_cast<int64_t>(rd.u32());
-    opt.start_system_time =
-        otel::common::SystemTimestamp(std::chrono::system_clock::time_point(std::chrono::duration_cast<std::chrono::system_clock::duration>(std::chrono::nanoseconds(m.start_ns))));
   }
   if (rd.chance(40))
   {
@@ -360,7 +777,49 @@ Started start_span(vh::Case &c, Setup &s, Model &m)
     tr::SpanContext parent = sg::gen_span_context(rd, true);
     opt.parent             = parent;
     m.parent_id            = sg::hex(parent.span_id());
+    m.explicit_parent      = true;
     c.tag("explicit-parent");
+  }
+  bool cstr_form = rd.coin();
+  // --- later additions ---------------------------------------------------------------------------
+  if (rd.chance(10))
+  {
+    m.name    = boundary_string(rd);
+    os.gs.sso = true;
+  }
+  tweak_kvlist(rd, attrs, os.gs);
+  if (m.start_given)
+  {
+    // boundaries of an explicitly given start time.  0 is not generated: a default constructed
+    // timestamp in StartSpanOptions means "not given" by API design.
+    switch (rd.weighted({14, 1, 1, 1}))
+    {
+      case 1:
+        m.start_ns = 1;
+        break;
+      case 2:
+        m.start_ns = -1;
+        break;
+      case 3:
+        m.start_ns = 1 + static_cast<int64_t>(rd.u32());
+        break;
+      default:
+        break;
+    }
+    opt.start_system_time = sys_ts(m.start_ns);
+  }
+  bool container_form = rd.chance(20);  // StartSpan(name, container, container, options) template
+  // the attribute container is a std::vector or the nostd::span the initializer_list overloads forward
+  bool span_form = container_form && rd.coin();
+  // model
+  sg::apply_last_wins(m.attrs, attrs);
+  for (auto &kv : s.sampler_attrs)
+    m.attrs[kv.first] = kv.second;
+  for (auto &l : links)
+  {
+    sg::KVMap lm;
+    sg::apply_last_wins(lm, l.attrs);
+    m.links.emplace_back(sg::show_ctx(l.ctx), lm);
   }
   std::string dup;
   {
@@ -369,36 +828,54 @@ Started start_span(vh::Case &c, Setup &s, Model &m)
       if (++seen[kv.first] > 1)
         dup = " dupkeys";
   }
-  c.note("StartSpan('" + vh::show(m.name.substr(0, 20)) + "', " + sg::show_kvlist(attrs) + ", links=" +
-         std::to_string(nl) + ", kind=" + std::to_string(m.kind) + (m.start_given ? " start_sys" : "") +
-         (m.steady_start_given ? " start_steady" : "") + dup + ")\n");
+  c.note("StartSpan('" + vh::show(m.name.substr(0, 20)) + "'(" + std::to_string(m.name.size()) + "), " +
+         sg::show_kvlist(attrs) + ", links=" + std::to_string(nl) + ", kind=" + std::to_string(m.kind) +
+         (m.start_given ? " start_sys=" + std::to_string(m.start_ns) : "") +
+         (m.steady_start_given ? " start_steady" : "") + dup + (container_form ? (span_form ? " span-form" : " container-form") : "") + ")\n");
   Started st;
+  WinTimer wt;
+  if (!container_form)
   {
-    sg::ArenaKV akv(attrs, a, rd.coin());
+    sg::ArenaKV akv(attrs, a, cstr_form);
     ArenaLinks alinks(links, a);
-    m.start_lo = now_sys_ns();
-    st.span    = s.tracer->StartSpan(a.view(m.name), akv, alinks, opt);
-    m.start_hi = now_sys_ns();
+    wt.begin();
+    st.span     = s.tracer->StartSpan(a.view(m.name), akv, alinks, opt);
+    m.start_win = wt.end();
+  }
+  else
+  {
+    os.container_form = true;
+    std::vector<ApiKV> cattrs = to_container(attrs, a, cstr_form);
+    std::vector<std::pair<tr::SpanContext, std::vector<ApiKV>>> clinks;
+    for (auto &l : links)
+      clinks.emplace_back(l.ctx, to_container(l.attrs, a, false));
+    otel::nostd::span<const ApiKV> sattrs(cattrs.data(), cattrs.size());
+    wt.begin();
+    if (span_form)
+      st.span = s.tracer->StartSpan(a.view(m.name), sattrs, clinks, opt);
+    else
+      st.span = s.tracer->StartSpan(a.view(m.name), cattrs, clinks, opt);
+    m.start_win = wt.end();
+    // scribble the containers themselves as well
+    for (auto &kv : cattrs)
+      kv = ApiKV(otel::nostd::string_view("\xDD\xDD", 2), otel::common::AttributeValue(false));
+    clinks.clear();
   }
   a.release();
   links.clear();
   auto ctx    = st.span->GetContext();
   st.trace_id = sg::hex(ctx.trace_id());
   st.span_id  = sg::hex(ctx.span_id());
+  st.flags    = ctx.trace_flags().flags();
   return st;
 }
 
-// one generated span operation applied to the span and (if before End) to the model
-struct OpStats
-{
-  bool dupkey = false, nonscalar = false, post_end = false;
-};
-
 void apply_op(vh::Case &c, vh::Reader &rd, tr::Span &span, Model &m, OpStats &st, const std::string &key_prefix,
-              bool allow_end, bool allow_name_status)
+              bool allow_end, bool allow_name_status, bool allow_links)
 {
   sg::Arena a;
-  size_t kind = rd.weighted({6, 4, 2, 2, allow_end ? 2u : 0u});
+  const unsigned wl = (C04_ABI2 && allow_links) ? 1u : 0u;
+  size_t kind       = rd.weighted({6, 4, 2, 2, allow_end ? 2u : 0u, 2 * wl, wl});
   if (!allow_name_status && (kind == 2 || kind == 3))
     kind = 0;
   bool live = !m.ended;
@@ -410,6 +887,7 @@ void apply_op(vh::Case &c, vh::Reader &rd, tr::Span &span, Model &m, OpStats &st
     {
       std::string k = key_prefix + sg::gen_key(rd);
       sg::MValue v  = sg::gen_value(rd);
+      tweak_value(rd, v, st.gs);
       if (v.index() >= 6)
         st.nonscalar = true;
       if (m.attrs.count(k))
@@ -423,28 +901,65 @@ void apply_op(vh::Case &c, vh::Reader &rd, tr::Span &span, Model &m, OpStats &st
     case 1:
     {
       MEvent e;
-      e.name       = key_prefix + sg::gen_bytes(rd, 60);
+      e.name       = key_prefix + gen_text(rd, 60);
       unsigned f   = rd.below(4);
       e.ts_given   = (f & 1) != 0;
       bool attrs   = (f & 2) != 0;
       sg::KVList l = attrs ? sg::gen_kvlist(rd, 4) : sg::KVList{};
+      e.ts_ns      = 1700000000000000000ll + static_cast<int64_t>(rd.u32());
+      // --- later additions
+      bool container_form = false, span_form = false;
+      if (attrs)
+      {
+        tweak_kvlist(rd, l, st.gs);
+        container_form = rd.chance(25);  // AddEvent(name[, ts], container) templates of the API
+        span_form      = container_form && rd.coin();
+      }
+      if (e.ts_given)
+      {
+        bool boundary = false;
+        e.ts_ns       = gen_event_ts(rd, e.ts_ns, &boundary);
+        st.ts_boundary |= boundary;
+        st.ts_zero |= e.ts_ns == 0;
+      }
       sg::apply_last_wins(e.attrs, l);
-      e.ts_ns = 1700000000000000000ll + static_cast<int64_t>(rd.u32());
-      otel::common::SystemTimestamp ts(std::chrono::system_clock::time_point(
-          std::chrono::duration_cast<std::chrono::system_clock::duration>(std::chrono::nanoseconds(e.ts_ns))));
-      c.note(" AddEvent('" + vh::show(e.name.substr(0, 16)) + "'" + (e.ts_given ? ",ts" : "") +
-             (attrs ? "," + sg::show_kvlist(l) : "") + ")\n");
+      otel::common::SystemTimestamp ts = sys_ts(e.ts_ns);
+      c.note(" AddEvent('" + vh::show(e.name.substr(0, 16)) + "'" +
+             (e.ts_given ? ",ts=" + std::to_string(e.ts_ns) : "") + (attrs ? "," + sg::show_kvlist(l) : "") +
+             (container_form ? (span_form ? " span-form" : " container-form") : "") + ")\n");
       sg::ArenaKV akv(l, a);
-      e.win_lo = now_sys_ns();
+      std::vector<ApiKV> cl;
+      if (container_form)
+      {
+        cl                = to_container(l, a, false);
+        st.container_form = true;
+      }
+      otel::nostd::span<const ApiKV> sl(cl.data(), cl.size());
+      WinTimer wt;
+      wt.begin();
       if (!e.ts_given && !attrs)
         span.AddEvent(a.view(e.name));
       else if (e.ts_given && !attrs)
         span.AddEvent(a.view(e.name), ts);
       else if (!e.ts_given && attrs)
-        span.AddEvent(a.view(e.name), akv);
+      {
+        if (span_form)
+          span.AddEvent(a.view(e.name), sl);
+        else if (container_form)
+          span.AddEvent(a.view(e.name), cl);
+        else
+          span.AddEvent(a.view(e.name), akv);
+      }
       else
-        span.AddEvent(a.view(e.name), ts, akv);
-      e.win_hi = now_sys_ns();
+      {
+        if (span_form)
+          span.AddEvent(a.view(e.name), ts, sl);
+        else if (container_form)
+          span.AddEvent(a.view(e.name), ts, cl);
+        else
+          span.AddEvent(a.view(e.name), ts, akv);
+      }
+      e.win = wt.end();
       if (live)
         m.events.push_back(e);
       break;
@@ -452,8 +967,9 @@ void apply_op(vh::Case &c, vh::Reader &rd, tr::Span &span, Model &m, OpStats &st
     case 2:
     {
       int code         = static_cast<int>(rd.below(3));
-      std::string desc = rd.coin() ? "" : sg::gen_bytes(rd, 80);
-      c.note(" SetStatus(" + std::to_string(code) + ",'" + vh::show(desc.substr(0, 16)) + "')\n");
+      std::string desc = rd.coin() ? "" : gen_text(rd, 80);
+      c.note(" SetStatus(" + std::to_string(code) + ",'" + vh::show(desc.substr(0, 16)) + "'(" +
+             std::to_string(desc.size()) + "))\n");
       span.SetStatus(static_cast<tr::StatusCode>(code), a.view(desc));
       if (live)
       {
@@ -464,93 +980,236 @@ void apply_op(vh::Case &c, vh::Reader &rd, tr::Span &span, Model &m, OpStats &st
     }
     case 3:
     {
-      std::string n = sg::gen_bytes(rd, 80);
-      c.note(" UpdateName('" + vh::show(n.substr(0, 16)) + "')\n");
+      std::string n = gen_text(rd, 80);
+      c.note(" UpdateName('" + vh::show(n.substr(0, 16)) + "'(" + std::to_string(n.size()) + "))\n");
       span.UpdateName(a.view(n));
       if (live)
         m.name = n;
       break;
     }
-    default:
+    case 4:
     {
       tr::EndSpanOptions eo;
       bool given = rd.chance(40);
       int64_t end_steady = m.steady_start + static_cast<int64_t>(rd.u32());
+      // a default constructed (0) end_steady_time means "not given" by API design
+      given = given && end_steady != 0;
       if (given)
         eo.end_steady_time =
             otel::common::SteadyTimestamp(std::chrono::steady_clock::time_point(std::chrono::nanoseconds(end_steady)));
       c.note(std::string(" End(") + (given ? "end_steady" : "") + ")\n");
+      int64_t lo = now_steady_ns();
       span.End(eo);
+      int64_t hi = now_steady_ns();
       if (live)
       {
         m.ended            = true;
         m.steady_end_given = given;
         m.steady_end       = end_steady;
+        m.e_lo             = lo;
+        m.e_hi             = hi;
       }
       break;
     }
+#if C04_ABI2
+    case 5:
+    {
+      bool valid = !rd.chance(15);
+      MLink l{sg::gen_span_context(rd, valid), sg::gen_kvlist(rd, 3)};
+      tweak_kvlist(rd, l.attrs, st.gs);
+      bool container_form = rd.chance(25);
+      c.note(" AddLink(" + sg::show_ctx(l.ctx) + "," + sg::show_kvlist(l.attrs) +
+             (container_form ? " container-form" : "") + ")\n");
+      st.add_link = true;
+      if (container_form)
+      {
+        std::vector<ApiKV> cl = to_container(l.attrs, a, false);
+        span.AddLink(l.ctx, cl);
+        st.container_form = true;
+      }
+      else
+      {
+        sg::ArenaKV akv(l.attrs, a);
+        span.AddLink(l.ctx, akv);
+      }
+      if (live)
+      {
+        sg::KVMap lm;
+        sg::apply_last_wins(lm, l.attrs);
+        m.links.emplace_back(sg::show_ctx(l.ctx), lm);
+      }
+      break;
+    }
+    case 6:
+    {
+      std::vector<MLink> links;
+      unsigned n = static_cast<unsigned>(rd.weighted({2, 4, 3, 2}));
+      for (unsigned i = 0; i < n; ++i)
+      {
+        bool valid = !rd.chance(15);
+        links.push_back(MLink{sg::gen_span_context(rd, valid), sg::gen_kvlist(rd, 3)});
+      }
+      bool container_form = rd.chance(25);
+      std::string d       = " AddLinks(" + std::to_string(n) + ":";
+      for (auto &l : links)
+        d += " " + sg::show_ctx(l.ctx) + sg::show_kvlist(l.attrs);
+      c.note(d + (container_form ? " container-form" : "") + ")\n");
+      st.add_links = true;
+      if (container_form)
+      {
+        std::vector<std::pair<tr::SpanContext, std::vector<ApiKV>>> clinks;
+        for (auto &l : links)
+          clinks.emplace_back(l.ctx, to_container(l.attrs, a, false));
+        span.AddLinks(clinks);
+        st.container_form = true;
+      }
+      else
+      {
+        ArenaLinks alinks(links, a);
+        span.AddLinks(alinks);
+      }
+      if (live)
+        for (auto &l : links)
+        {
+          sg::KVMap lm;
+          sg::apply_last_wins(lm, l.attrs);
+          m.links.emplace_back(sg::show_ctx(l.ctx), lm);
+        }
+      break;
+    }
+#endif
+    default:
+      break;
   }
   a.release();
 }
 
-void finish_and_check(vh::Case &c, Setup &s, Started &st, Model &m, bool unordered)
+void finish_and_check(vh::Case &c, Setup &s, Started &st, Model &m, const std::vector<std::string> *groups)
 {
   if (!m.ended)
   {
-    c.note(" End()\n");
-    st.span->End();
+    // the span is ended by End() or - late alternative - only by dropping the last reference
+    bool drop_only = c.rd.chance(35);
+    if (drop_only && c.rd.coin())
+    {
+      c.note(" (tracer handle released first)\n");
+      s.tracer = otel::nostd::shared_ptr<tr::Tracer>(nullptr);
+    }
+    if (!drop_only)
+    {
+      c.note(" End()\n");
+      m.e_lo = now_steady_ns();
+      st.span->End();
+      m.e_hi = now_steady_ns();
+    }
+    else
+    {
+      c.note(" ~Span() without End\n");
+      c.tag("ended-by-destructor");
+      m.e_lo  = now_steady_ns();
+      st.span = otel::nostd::shared_ptr<tr::Span>(nullptr);
+      m.e_hi  = now_steady_ns();
+    }
     m.ended = true;
   }
   st.span = otel::nostd::shared_ptr<tr::Span>(nullptr);  // dropping the last reference must not export again
   VH_CHECK(c, s.provider->ForceFlush(), "TracerProvider::ForceFlush returned false");
+  auto who_of = [&](size_t i) {
+    const char *k = s.sinks[i]->kind == 'b' ? " (batch)" : s.sinks[i]->kind == 'p' ? " (probe)" : " (simple)";
+    return "processor " + std::to_string(i) + k;
+  };
   for (size_t i = 0; i < s.sinks.size(); ++i)
   {
-    std::lock_guard<std::mutex> g(s.sinks[i]->mu);
-    std::string who = "processor " + std::to_string(i) + (s.is_batch[i] ? " (batch)" : " (simple)");
-    VH_CHECK(c, s.sinks[i]->spans.size() == 1, who << ": its exporter received " << s.sinks[i]->spans.size()
-                                                   << " spans for one ended span");
-    compare(c, m, s.sinks[i]->spans[0], s, st.trace_id, st.span_id, who.c_str(), unordered);
+    Sink &sk = *s.sinks[i];
+    std::lock_guard<std::mutex> g(sk.mu);
+    std::string who = who_of(i);
+    if (sk.kind == 'p')
+    {
+      VH_CHECK(c, sk.on_start == 1, who << ": OnStart was called " << sk.on_start << " times for one span");
+      VH_CHECK(c, sk.on_end == 1, who << ": OnEnd was called " << sk.on_end << " times for one ended span");
+      VH_CHECK(c, sk.start_ptr == sk.end_ptr,
+               who << ": the recordable given to OnStart is not the one delivered to OnEnd");
+      if (m.explicit_parent)
+        VH_CHECK(c, sk.start_parent_valid && sk.start_parent_span == m.parent_id,
+                 who << ": OnStart was given parent span id " << sk.start_parent_span << ", expected " << m.parent_id);
+      else
+        VH_CHECK(c, !sk.start_parent_valid, who << ": OnStart was given a valid parent context for a root span");
+    }
+    VH_CHECK(c, sk.spans.size() == 1, who << ": received " << sk.spans.size() << " spans for one ended span");
+    compare(c, m, sk.spans[0], s, st, who.c_str(), groups);
+    // the same recordable read again, after every operation of the program has run
+    VH_CHECK(c, sk.held.size() == 1 && sk.held[0] != nullptr, who << ": no recordable was handed over");
+    Captured late = snapshot(static_cast<sdkt::SpanData &>(*sk.held[0]));
+    compare(c, m, late, s, st, (who + " [recordable re-read at the end of the program]").c_str(), groups);
   }
   s.tracer = otel::nostd::shared_ptr<tr::Tracer>(nullptr);
   s.provider->Shutdown();
   for (size_t i = 0; i < s.sinks.size(); ++i)
   {
-    std::lock_guard<std::mutex> g(s.sinks[i]->mu);
-    VH_CHECK(c, s.sinks[i]->spans.size() == 1, "processor " << i << ": a span was exported again at shutdown");
+    Sink &sk = *s.sinks[i];
+    std::lock_guard<std::mutex> g(sk.mu);
+    VH_CHECK(c, sk.spans.size() == 1, who_of(i) << ": a span was delivered again at shutdown");
+    if (sk.kind == 'p')
+      VH_CHECK(c, sk.on_start == 1 && sk.on_end == 1, who_of(i) << ": notified again at shutdown (OnStart " << sk.on_start
+                                                                << ", OnEnd " << sk.on_end << ")");
   }
 }
 
-}  // namespace
-
-VH_TARGET(span_program, 6,
-          "a program is non-trivial when it has a duplicate attribute key, a non-scalar value, an "
-          "operation after End, or 2+ processors; distinct = distinct program text")
+void emit_tags(vh::Case &c, const OpStats &os)
 {
-  Setup s = make_setup(c);
-  Model m;
-  Started st = start_span(c, s, m);
-  OpStats os;
-  unsigned nops = c.rd.below(10);
-  for (unsigned i = 0; i < nops && (i < 2 || !c.rd.exhausted()); ++i)
-    apply_op(c, c.rd, *st.span, m, os, "", true, true);
   if (os.dupkey)
     c.tag("dup-key");
   if (os.nonscalar)
     c.tag("non-scalar");
   if (os.post_end)
     c.tag("post-end-op");
-  c.nontrivial = os.dupkey || os.nonscalar || os.post_end || s.sinks.size() >= 2;
-  finish_and_check(c, s, st, m, false);
+  if (os.ts_boundary)
+    c.tag("event-ts-boundary");
+  if (os.ts_zero)
+    c.tag("event-ts-0ns");
+  if (os.add_link)
+    c.tag("AddLink");
+  if (os.add_links)
+    c.tag("AddLinks");
+  if (os.container_form)
+    c.tag("container-overload");
+  if (os.gs.sso)
+    c.tag("string-len-9..32");
+  if (os.gs.large_array)
+    c.tag("array-200+");
 }
 
-VH_TARGET(span_threads, 6,
-          "2..3 real threads operate on one span (disjoint key/event namespaces per thread, name and "
-          "status from one thread only), End after all writers joined; non-trivial when 2+ threads "
-          "each performed at least one operation; distinct = distinct program text")
+}  // namespace
+
+VH_TARGET(span_program, 6,
+          "a program is non-trivial when it has a duplicate attribute key, a non-scalar value, an "
+          "operation after End, an explicit boundary timestamp, an AddLink/AddLinks call (ABI v2) or 2+ "
+          "processors; distinct = distinct program text")
 {
   Setup s = make_setup(c);
   Model m;
-  Started st  = start_span(c, s, m);
+  OpStats os;
+  Started st = start_span(c, s, m, os);
+  unsigned nops = c.rd.below(10);
+  for (unsigned i = 0; i < nops && (i < 2 || !c.rd.exhausted()); ++i)
+    apply_op(c, c.rd, *st.span, m, os, "", true, true, true);
+  emit_tags(c, os);
+  c.tag(m.ended && m.steady_start_given && m.steady_end_given ? "duration:exact" : "duration:steady-window");
+  c.nontrivial = os.dupkey || os.nonscalar || os.post_end || os.ts_boundary || os.add_link || os.add_links ||
+                 s.sinks.size() >= 2;
+  finish_and_check(c, s, st, m, nullptr);
+}
+
+VH_TARGET(span_threads, 6,
+          "2..3 real threads operate on one span (disjoint key/event namespaces per thread; name, status "
+          "and ABI v2 links from one thread only), End after all writers joined; events are compared in "
+          "call order per thread; non-trivial when 2+ threads each performed at least one operation; "
+          "distinct = distinct program text")
+{
+  Setup s = make_setup(c);
+  Model m;
+  OpStats os0;
+  Started st  = start_span(c, s, m, os0);
   unsigned nt = 2 + c.rd.below(2);
   // pre-generate each thread's slice of the choice stream so the threads do not share the reader
   std::vector<std::vector<uint8_t>> slices(nt);
@@ -564,19 +1223,22 @@ VH_TARGET(span_threads, 6,
   std::vector<std::string> notes(nt);
   std::vector<std::string> errors(nt);
   std::vector<unsigned> opcount(nt, 0);
+  std::vector<OpStats> tos(nt);
+  std::vector<std::string> groups;
   std::vector<std::thread> ths;
+  for (unsigned t = 0; t < nt; ++t)
+    groups.push_back("t" + std::to_string(t) + ".");
   for (unsigned t = 0; t < nt; ++t)
   {
     tm[t].steady_start = m.steady_start;
     ths.emplace_back([&, t]() {
       vh::Case sub(slices[t].data(), slices[t].size());
-      OpStats os;
       unsigned nops = 1 + sub.rd.below(6);
       try
       {
         for (unsigned i = 0; i < nops; ++i)
         {
-          apply_op(sub, sub.rd, *st.span, tm[t], os, "t" + std::to_string(t) + ".", false, t == 0);
+          apply_op(sub, sub.rd, *st.span, tm[t], tos[t], groups[t], false, t == 0, t == 0);
           ++opcount[t];
         }
       }
@@ -590,6 +1252,7 @@ VH_TARGET(span_threads, 6,
   for (auto &th : ths)
     th.join();
   unsigned active = 0;
+  bool multi_event_thread = false;
   for (unsigned t = 0; t < nt; ++t)
   {
     c.note("thread " + std::to_string(t) + ":\n" + notes[t]);
@@ -601,21 +1264,32 @@ VH_TARGET(span_threads, 6,
       m.attrs[kv.first] = kv.second;
     for (auto &e : tm[t].events)
       m.events.push_back(e);
+    if (tm[t].events.size() >= 2)
+      multi_event_thread = true;
     if (t == 0)
     {
-      if (!tm[t].name.empty() || notes[t].find("UpdateName") != std::string::npos)
-        if (notes[t].find("UpdateName") != std::string::npos)
-          m.name = tm[t].name;
+      if (notes[t].find("UpdateName") != std::string::npos)
+        m.name = tm[t].name;
       if (notes[t].find("SetStatus") != std::string::npos)
       {
         m.status      = tm[t].status;
         m.status_desc = tm[t].status_desc;
       }
+      for (auto &l : tm[t].links)
+        m.links.push_back(l);
+      if (tos[t].add_link)
+        c.tag("AddLink");
+      if (tos[t].add_links)
+        c.tag("AddLinks");
     }
+    if (tos[t].ts_zero)
+      c.tag("event-ts-0ns");
   }
   c.tag("threads-" + std::to_string(nt));
+  if (multi_event_thread)
+    c.tag("thread-with-2+events(order checked)");
   c.nontrivial = active >= 2;
-  finish_and_check(c, s, st, m, true);
+  finish_and_check(c, s, st, m, &groups);
 }
 
 // ================================================================================================
@@ -623,7 +1297,8 @@ VH_TARGET(span_threads, 6,
 // 1..2 writer threads perform stamped operations in a tight loop while 1..2 threads call End once
 // the writers' progress reaches a generated point.  Oracle (logical stamps from one atomic clock):
 //   * an operation that RETURNED before the first End call BEGAN is in the exported span,
-//   * an operation that BEGAN after an End call had RETURNED is not,
+//   * an operation that BEGAN after an End call had RETURNED is not - neither in what Export saw nor
+//     in the exported recordable when it is read again after all threads have finished,
 //   * operations overlapping End may go either way,
 //   * exactly one span per processor, whatever the number of End callers; no crash (ASan/TSan).
 VH_TARGET(span_end_race, 4,
@@ -722,34 +1397,40 @@ VH_TARGET(span_end_race, 4,
       first_end_ret  = std::min(first_end_ret, e.ret);
     }
     std::lock_guard<std::mutex> g(sink->mu);
-    VH_CHECK(c, sink->spans.size() == 1, "round " << round << ": " << nend << " End caller(s) produced "
-                                                   << sink->spans.size() << " exported spans");
-    const Captured &got = sink->spans[0];
-    for (unsigned w = 0; w < nw; ++w)
-      for (size_t i = 0; i < progs[w].size(); ++i)
-      {
-        std::string id  = "w" + std::to_string(w) + "." + std::to_string(i);
-        bool before     = wst[w][i].ret < first_end_call;
-        bool after      = wst[w][i].call > first_end_ret;
-        if (!before && !after)
-          overlapped = true;
-        bool present = false;
-        if (progs[w][i].kind == 0)
-          present = got.attrs.count(id) != 0;
-        else if (progs[w][i].kind == 1)
+    VH_CHECK(c, sink->spans.size() == 1 && sink->held.size() == 1,
+             "round " << round << ": " << nend << " End caller(s) produced " << sink->spans.size() << " exported spans");
+    const Captured late = snapshot(static_cast<sdkt::SpanData &>(*sink->held[0]));
+    const Captured *views[2] = {&sink->spans[0], &late};
+    for (int v = 0; v < 2; ++v)
+    {
+      const Captured &got = *views[v];
+      const char *where   = v == 0 ? "the exported span" : "the exported recordable read again after all threads finished";
+      for (unsigned w = 0; w < nw; ++w)
+        for (size_t i = 0; i < progs[w].size(); ++i)
         {
-          for (auto &ev : got.events)
-            present = present || ev.name == id;
+          std::string id  = "w" + std::to_string(w) + "." + std::to_string(i);
+          bool before     = wst[w][i].ret < first_end_call;
+          bool after      = wst[w][i].call > first_end_ret;
+          if (!before && !after)
+            overlapped = true;
+          bool present = false;
+          if (progs[w][i].kind == 0)
+            present = got.attrs.count(id) != 0;
+          else if (progs[w][i].kind == 1)
+          {
+            for (auto &ev : got.events)
+              present = present || ev.name == id;
+          }
+          else
+            continue;  // name / status: last-writer semantics under a race are not asserted
+          if (before)
+            VH_CHECK(c, present, "round " << round << ": operation " << id << " returned before End began but is "
+                                          << "missing from " << where);
+          if (after)
+            VH_CHECK(c, !present, "round " << round << ": operation " << id << " began after End had returned but "
+                                           << "is in " << where);
         }
-        else
-          continue;  // name / status: last-writer semantics under a race are not asserted
-        if (before)
-          VH_CHECK(c, present, "round " << round << ": operation " << id << " returned before End began but is "
-                                        << "missing from the exported span");
-        if (after)
-          VH_CHECK(c, !present, "round " << round << ": operation " << id << " began after End had returned but "
-                                         << "is in the exported span");
-      }
+    }
   }
   if (overlapped)
     c.tag("op-overlapped-end");
